@@ -14,7 +14,8 @@ Record case := mkCase {
                             9 never-stop fan stalled at max PWM, 10 ... after the minimum was raised step by step,
                             11 cancelled while a control cycle is in flight (released after the other actors returned),
                             12 cancelled with a tick pending,
-                            13 / 14 as 5 / 9, then the controller is kept alive for more than a second before the shutdown *)
+                            13 / 14 as 5 / 9, then the controller is kept alive for more than a second before the shutdown,
+                            15 as 5, the error comes from a real cmd sensor whose command leaves an orphaned child holding its stdout *)
   c_top : Z;             (* PWM at which the start-up activity leaves the fan *)
   o_ret : Z;             (* 0 nil, 1 error, 2 panic, 3 did not return *)
   o_touched : bool;      (* some write reached the fan *)
@@ -39,7 +40,7 @@ Definition sched_of (c : case) : list event :=
   match c_scn c with
   | 1 | 2 | 3 => [ok; ok; Advance 0%nat (mk false true false false (left c)); Advance 0%nat (mk true false false false (left c))]
   | 4 => ticking ++ [Tick 0%nat (mkTick (left c) true plan_gone); SigRecv; RpmDone 0%nat]
-  | 5 | 9 | 10 | 13 | 14 => ticking ++ [Tick 0%nat (mkTick (left c) true plan_ok); SigRecv; RpmDone 0%nat]
+  | 5 | 9 | 10 | 13 | 14 | 15 => ticking ++ [Tick 0%nat (mkTick (left c) true plan_ok); SigRecv; RpmDone 0%nat]
   | 6 | 11 | 12 => ticking ++ [SigRecv; ok; RpmDone 0%nat]
   | 7 => [ok; ok; Advance 0%nat (mk true true true false (left c))]
   | 8 => [ok; ok; Advance 0%nat (mk true true false false (left c))]
